@@ -349,7 +349,7 @@ class Report:
 
 # Modules that hold only proof obligations about numbers/shapes extracted from the source (T1). The driver does not
 # import them, so a source change that breaks one of them breaks only the property that owns it.
-OBLIGATION_MODULES = {"VersionThm": "C15", "ArgsGen": "C11", "Limits": "C12", "DetGen": "C13", "OptGen": "C07"}
+OBLIGATION_MODULES = {"VersionThm": "C15", "ArgsGen": "C11", "Limits": "C12", "DetGen": "C13", "OptGen": "C07", "CmapGen": "C17"}
 
 
 def lean_modules(pid):
@@ -366,7 +366,7 @@ def lean_modules(pid):
     return sorted(mods)
 
 
-def lean_gate(report, theorems, uses_tables=False, uses_args=False, uses_det=False, uses_opt=False):
+def lean_gate(report, theorems, uses_tables=False, uses_args=False, uses_det=False, uses_opt=False, uses_cmap=False):
     """Common proof gate: regenerate tables from the source (T1), forbid sorry etc., lake build, audit axioms.
     Returns True if the proof side is intact. Records violations (no-failing-input-found) otherwise."""
     import extract_tables
@@ -411,6 +411,17 @@ def lean_gate(report, theorems, uses_tables=False, uses_args=False, uses_det=Fal
         report.coverage["opt_consts_regenerated_from_source"] = False
         if uses_opt:
             report.violation("extract-opt", {"broken": "T1 extraction of the optional-item algorithm from PostParser.cpp failed: %s" % e},
+                             no_failing_input=True)
+    import extract_cmap
+    try:
+        with Lock(os.path.join(SCRATCH_ROOT, ".lake.lock")):
+            report.cmap_consts = extract_cmap.main()
+        report.coverage["cmap_consts_regenerated_from_source"] = True
+    except extract_tables.ExtractError as e:
+        report.cmap_consts = None
+        report.coverage["cmap_consts_regenerated_from_source"] = False
+        if uses_cmap:
+            report.violation("extract-cmap", {"broken": "T1 extraction of the cmap lookups from TtfUtil.cpp/GrcFont.cpp failed: %s" % e},
                              no_failing_input=True)
     hits = lean_grep_forbidden()
     mods = lean_modules(report.pid)
